@@ -253,7 +253,7 @@ def _decide(args):
     if st in ('sat', 'unsat'):
         return Verdict(ob, st, 'z3-5.1', total)
     if os.path.exists(Z3_OLD):
-        st6, sec6, _ = _run_cli([Z3_OLD, '-T:5'], path, 5)
+        st6, sec6, _ = _run_cli([Z3_OLD, '-T:8'], path, 8)
         total += sec6
         if st6 == 'unsat':
             return Verdict(ob, 'unsat', 'z3-4.8.12', total)
